@@ -2,8 +2,11 @@ package props
 
 import (
 	"os"
+	"path"
+	"strings"
 
 	"verif/harness/hist"
+	"verif/harness/live"
 )
 
 // avoidFor returns the steering predicate of a property: it names the guard that excludes
@@ -32,8 +35,49 @@ func avoidFor(prop string) func(hist.Step, *hist.MRunner) string {
 				}
 			}
 		}
+		// Archive-level calls are generated the way the CLI uses them on sane inputs: new
+		// names for Archive, existing entries of the same kind for Update, a free
+		// destination for Move, no name twice in one batch.
+		switch s.Op {
+		case "arch_archive", "arch_update":
+			seen := map[string]bool{}
+			for _, mb := range s.Members {
+				c := hist_clean(mb.Path)
+				if seen[c] {
+					return "interp:archive-level-duplicate-in-batch"
+				}
+				seen[c] = true
+				n := mr.M.Get(c)
+				if s.Op == "arch_archive" && (n != nil || mr.M.Get(parentOfPath(c)) == nil || mr.M.Get(parentOfPath(c)).Kind != "dir") {
+					return "interp:archive-level-archive-of-existing-or-orphan"
+				}
+				if s.Op == "arch_update" && n != nil && n.Kind != mb.Kind {
+					return "interp:archive-level-update-changes-kind"
+				}
+				if s.Op == "arch_update" && n == nil && !guard("F-27") {
+					continue
+				}
+			}
+		case "arch_move":
+			src, dst := mr.M.Get(s.Path), mr.M.Get(s.Path2)
+			if src != nil && (dst != nil || mr.M.Get(parentOfPath(s.Path2)) == nil || mr.M.Get(parentOfPath(s.Path2)).Kind != "dir" || strings.HasPrefix(hist_clean(s.Path2), hist_clean(s.Path)+"/")) {
+				return "interp:archive-level-move-onto-existing-or-orphan"
+			}
+		case "arch_delete":
+			if hist_clean(s.Path) == "/" {
+				return "interp:archive-level-delete-root"
+			}
+		}
 		// Guards of open findings (active only while the finding still reproduces).
 		switch s.Op {
+		case "arch_update":
+			if guard("F-27") {
+				for _, mb := range s.Members {
+					if mr.M.Get(mb.Path) == nil {
+						return "F-27"
+					}
+				}
+			}
 		case "chmod", "chown", "chtimes":
 			if guard("F-24") && mr.OpenPaths()[hist_clean(s.Path)] {
 				return "F-24"
@@ -42,3 +86,27 @@ func avoidFor(prop string) func(hist.Step, *hist.MRunner) string {
 		return ""
 	}
 }
+
+func init() {
+	if guard("F-29") {
+		hist.HideWriterTo = true
+		hist.OnHidden = func() { live.S.Exclude("F-29") }
+	}
+}
+
+// knownOutcome recognises the signature of an open finding that cannot be steered around
+// because it depends on randomness outside the generator (crypto/rand).
+func knownOutcome(x *hctx, s hist.Step, res hist.Res) string {
+	if res.Err == nil {
+		return ""
+	}
+	if guard("F-29") && x.cfg.Encryption == "pgp" {
+		msg := res.Err.Error()
+		if strings.Contains(msg, "missed writing") || strings.Contains(msg, "write too long") {
+			return "F-29"
+		}
+	}
+	return ""
+}
+
+func parentOfPath(p string) string { return path.Dir(hist_clean(p)) }
